@@ -1183,6 +1183,54 @@ def scn_hastings(d, sizes, rank, steps, plan, integ_kind="real", spec="inverse",
     return scn
 
 
+def scn_mass_invariant(d, rank, how):
+    """Representation invariant of HMCOperator that scn_hastings relies on:  inverse_mass_matrix ≡ (mass_matrix)⁻¹  and mass_matrix is
+    the CURRENT value of the mass-matrix parameter, after construction and after every way the library changes the mass matrix:
+    assign (what MassMatrixAdaptor / DualAveraging adaptors do), in-place update + notification, _load_state_dict (checkpoint restore)."""
+    def scn(mk):
+        tt = _tt()
+        env = _Env(mk, d, _split(d), rank, "ufn", "real", plan=[None], mass=True)
+        integ = env.integrator(1)
+        mass = tt["Parameter"]("mass", env.M)
+        sink = io.StringIO()
+        with contextlib.redirect_stdout(sink):
+            op = tt["op_mod"].HMCOperator("hmc", env.model, env.params, integ, mass, 1.0, 0.8, [])
+            if how == "init":
+                M_now = env.M
+            elif how in ("assign", "inplace"):
+                if rank == "diag":
+                    M2 = mk.real("m2", (d,), 0.5, 4.0)
+                else:
+                    M2 = _symmetric(mk, "N", d, 1.0, 3.0, 0.9 / max(1, d - 1) if d > 1 else 0.1)
+                if how == "assign":
+                    mass.tensor = M2
+                else:
+                    if mk.symbolic:
+                        mass._tensor = M2      # the in-place write itself is torch's; the notification is what the code owns
+                    else:
+                        with torch.no_grad():
+                            mass.tensor.copy_(M2)
+                    mass.fire_parameter_changed()
+                M_now = M2
+            else:
+                vals = [2.0, 0.5, 1.25, 3.0][:d] if rank == "diag" else [[(2.0 + i if i == j else 0.25) for j in range(d)] for i in range(d)]
+                op._load_state_dict({"mass_matrix": {"id": "mass", "type": "Parameter", "tensor": vals}, "integrator": integ.state_dict() if hasattr(integ, "state_dict") else {}})
+                M_now = torch.tensor(vals, dtype=torch.float64) if not mk.symbolic else ST(np.array([[nf.const(x) for x in r] for r in vals] if rank != "diag" else [nf.const(x) for x in vals], dtype=object))
+        if rank == "diag":
+            Mspec = _vec(M_now)
+            Winv = [1 / x for x in Mspec]
+            got_W = _vec(op.inverse_mass_matrix)
+            got_M = _vec(op.mass_matrix)
+        else:
+            Mspec = [x for r in _mat(M_now) for x in r]
+            Winv = [x for r in _cofactor_inverse(_mat(M_now)) for x in r]
+            got_W = [x for r in _mat(op.inverse_mass_matrix) for x in r]
+            got_M = [x for r in _mat(op.mass_matrix) for x in r]
+        return [("eq", "mass_matrix_is_current_parameter_value", got_M, Mspec),
+                ("eq", "inverse_mass_matrix_is_inverse_of_current_mass_matrix", got_W, Winv)]
+    return scn
+
+
 def scn_mcmc(d, sizes, rank, steps, plan):
     """one iteration of the REAL MCMC.run with the HMC operator as the only operator; `torch.rand` in the namespace of
     torchtree.inference.mcmc.mcmc returns a symbolic u∈(0,1).  Claims: accepted ⇔ u < min(1, exp(−(H1−H0))) with
@@ -1465,6 +1513,12 @@ def obligations(tier, seed):
             for rank in ranks:
                 add("C16.volume.det[d=%d,steps=%d,%s]" % (d, steps, rank), "V", "scn_volume_det", (d, _split(d), steps, rank),
                     "volume preservation (explicit determinant)", d)
+    # ---- representation invariant of the operator (what the Hastings obligations read at step time)
+    for d in (1, 2, 3):
+        for rank in ranks:
+            for how in ("init", "assign", "inplace", "load_state"):
+                add("C16.hastings.mass_invariant[d=%d,%s,%s]" % (d, rank, how), "V", "scn_mass_invariant", (d, rank, how),
+                    "the kinetic energy uses the inverse of the mass matrix the momentum is drawn with", d)
     # ---- hastings
     for d in (1, 2, 3):
         for rank in ranks:
